@@ -51,6 +51,10 @@ type Node struct {
 	RecMode string
 	RecVer  byte // transaction record layout the setter was asked to write
 	RecMin  int  // LogSinkZipPack.SetRecords: the compression threshold passed
+	// zip containers: length of the concatenated inner packs before compression (set when the
+	// setter is applied) and the redundancy class the payload was drawn from (redundancy.go)
+	RecPlain int
+	RecClass string
 }
 
 func nInt(v int64) *Node { return &Node{K: kInt, I: v} }
@@ -139,6 +143,8 @@ func genBlob(r *vlib.Rand) *Node {
 type genCtx struct {
 	r     *vlib.Rand
 	depth int // nesting depth of packs
+	// extreme: zip containers draw only the highly repetitive payload classes, at full size
+	extreme bool
 	// sibling values generated so far in the enclosing struct (for Select)
 	sib map[string]int64
 }
@@ -1004,7 +1010,29 @@ func leavesField(r *vlib.Rand, c *Node, f *FieldSpec, p, k string, out *[]leaf) 
 				return func() { kk.I = old }
 			}})
 		case kStruct:
-			leaves(r, key, fmt.Sprintf("%s{#%d}.key", p, i), k+"{}.key", out)
+			// a struct key: its leaves, each flip refused when it makes the key equal to another key
+			// of the map (the map would merge the two entries)
+			var sub []leaf
+			leaves(r, key, fmt.Sprintf("%s{#%d}.key", p, i), k+"{}.key", &sub)
+			kk, cc := key, c
+			for _, lf := range sub {
+				lf := lf
+				inner := lf.flip
+				lf.flip = func() func() {
+					undo := inner()
+					if undo == nil {
+						return nil
+					}
+					for _, o := range cc.Keys {
+						if o != kk && diffNode(o, kk, "", "") == nil {
+							undo()
+							return nil
+						}
+					}
+					return undo
+				}
+				*out = append(*out, lf)
+			}
 		}
 		switch val.K {
 		case kStruct:
